@@ -41,6 +41,14 @@ Definition entry_ok (lock : string) (prot : string -> bool) (name : string) : bo
   | None => false                      (* an entry point that disappeared is a broken obligation too *)
   end.
 
+(* atomicity: an entry point touches the protected state inside ONE critical section (an operation that
+   looks something up under the read lock and acts on it later under the write lock is not atomic) *)
+Definition single_region (lock : string) (prot : string -> bool) (name : string) : bool :=
+  match lookup_summary name summaries with
+  | Some s => Nat.leb (length (filter (fun e => match e with Acq _ => true | _ => false end) (project lock prot s))) 1
+  | None => false
+  end.
+
 (* diagnostics printed when the obligation fails *)
 Definition violations (lock : string) (prot : string -> bool) : list (string * option sev) :=
   filter (fun x => match snd x with Some _ => true | None => false end)
